@@ -79,3 +79,7 @@ pub use gmsol_solana_utils::{
 
 #[cfg(feature = "decode")]
 pub use gmsol_decode as decode;
+
+/// Verification hooks: additive re-exports of crate-private items for the /verif harness.
+#[cfg(feature = "verif-hooks")]
+pub mod verif;
